@@ -18,6 +18,7 @@ pub mod c14;
 pub mod c15;
 pub mod c16;
 pub mod c17;
+pub mod c18;
 
 pub fn lookup(id: &str) -> Option<(&'static str, fn(&mut Ctx))> {
     Some(match id {
@@ -38,6 +39,7 @@ pub fn lookup(id: &str) -> Option<(&'static str, fn(&mut Ctx))> {
         "C15" => ("C15", c15::run as fn(&mut Ctx)),
         "C16" => ("C16", c16::run as fn(&mut Ctx)),
         "C17" => ("C17", c17::run as fn(&mut Ctx)),
+        "C18" => ("C18", c18::run as fn(&mut Ctx)),
         _ => return None,
     })
 }
